@@ -1,6 +1,7 @@
 """C03 — ambiguous or incomplete module sets never produce a plasmid"""
 import itertools
 
+import asm
 import gen
 import impl
 from impl import EntSpec
@@ -10,7 +11,7 @@ TABLES = []
 LAKE_TARGETS = ["Moclo.Props.C03"]
 THEOREMS = ["Moclo.C03." + t for t in ["ok_sound", "ok_complete", "error_classes", "order_independent"]]
 # reductions under which a failing case stays a case of this property (see shrink.py)
-SHRINK = {"lists": ["mods", "lower"], "ints": []}
+SHRINK = {"lists": ["mods", "lower"], "ints": [], "freeze_if": ["recipe"]}
 RULE = ("real plasmids over a 2-nt cutter for every (start, end) pair of the overhang alphabet "
         "{AA,TT,AC,GT,AT,CG,CA} (equal, reverse-complementary and palindromic overhangs); all multisets of <= 2 "
         "modules (quick) / <= 3 (thorough) x 6 vectors x all argument orders, plus random multisets of 3-5 modules "
@@ -68,6 +69,8 @@ def spec(vdown, vup, mods):
 
 
 def check_case(ctx, case):
+    if "recipe" in case:
+        return check_kit_graph(ctx, case)
     P = plasmids(ctx.rng)
     M, V = P["cls"]
     vdown, vup = case["vector"]
@@ -120,8 +123,69 @@ def check_case(ctx, case):
         ctx.op(op, case, reply=reply)
 
 
+def sticky_ends(word, enz):
+    """(upstream, downstream) single-stranded ends a 5'-overhang cutter really leaves on a circular plasmid with
+    exactly one site on each strand, read off the sequence by plain string search (None if not exactly two sites)"""
+    site, off, k = gen.geom(enz)
+    n = len(word)
+    d = (word * 3).upper()
+    fw = [i for i in range(n) if d[n + i:n + i + len(site)] == site]
+    rv = [i for i in range(n) if d[n + i:n + i + len(site)] == gen.rc(site)]
+    if len(fw) != 1 or len(rv) != 1:
+        return None
+    a = n + fw[0] + len(site) + off
+    b = n + rv[0] - off - k
+    return d[a:a + k], d[b:b + k]
+
+
+def check_kit_graph(ctx, case):
+    """the same statement over the kits' own classes (hand-written vector structures included): the overhang graph is
+    that of the ends the cutter really leaves on each plasmid"""
+    from props import c11
+    m = c11.materialise({"recipe": case["recipe"]})
+    if m is None or "vector" not in m:
+        ctx.note("kit-graph-not-buildable")
+        return
+    ents = [m["vector"]] + m["mods"]
+    if case.get("drop") is not None and len(m["mods"]) > 1:
+        del m["mods"][case["drop"] % len(m["mods"])]
+        ents = [m["vector"]] + m["mods"]
+    ends = {}
+    for e in ents:
+        cls = asm.cls_by_name(e["cls"])
+        se = sticky_ends(e["word"], cls.cutter)
+        if se is None:
+            ctx.note("kit-graph-skipped-sites")
+            return
+        ends[e["oid"]] = se
+    vup, vdown = ends[m["vector"]["oid"]]
+    mods = [(ends[x["oid"]][0], ends[x["oid"]][1], x["oid"]) for x in m["mods"]]
+    exp = spec(vdown, vup, mods)
+    reply, prod, _ = impl.run_asm(asm.asm_op(m))
+    f = reply.split("\t")
+    if f[0] == "err":
+        got = ("missing", f[1].split(":")[1].upper()) if f[1].startswith("missing") else (f[1],)
+    else:
+        got = ("ok",)
+    if got[0] != exp[0] or (got[0] == "missing" and got[1] != exp[1]):
+        ctx.fail("{}: the ends the cutter leaves are vector {}/{} and modules {}: the overhang graph says {} but the "
+                 "implementation gives {}".format(m["vector"]["cls"], vdown, vup, [(a, b) for a, b, _ in mods], exp[:2], got),
+                 case)
+    ctx.note("kit-graph:" + exp[0])
+    ctx.case(case, nontrivial=True, key=["kit", case["recipe"][1], case["recipe"][2], case.get("drop")])
+
+
 def run(ctx):
     rng = ctx.rng
+    # the kits' own vector / module classes, complete chains and chains with one module taken away
+    from props import c11
+    import random
+    for triple in c11.TRIPLES:
+        for _ in range(ctx.budget(6, 150)):
+            rs = rng.getrandbits(48)
+            if c11.build(random.Random(rs), triple) is None:
+                continue
+            ctx.guard(check_case, {"recipe": ["one", list(triple), rs], "drop": rng.choice([None, None, 0, 1, 2])})
     pairs = [(a, b) for a in OVS for b in OVS]
     kmax = 2 if ctx.tier == "quick" or ctx.scale > 1 else 3
     n = 0
